@@ -23,8 +23,9 @@ def path_reset(ctx, job, box):
     via = job.params['via']
     if geom:
         cols, lines = geom
-        run = GridRun(ctx, box, cols, lines, cursor='pick', tabstops=2, savepoints=job.params.get('sp', 0),
-                      sp_charsets='fixed', charset='sym')
+        opts = dict(remote_opts(cols, lines), dirty='none') if job.params.get('remote') else {'cursor': 'pick'}
+        run = GridRun(ctx, box, cols, lines, tabstops=2, savepoints=job.params.get('sp', 0),
+                      sp_charsets='fixed', charset='sym', **opts)
     else:
         run = GridRun(ctx, box, None, None, buffer='one', tabstops=2, geom_max=(140, 6))
     L, eng = run.L, run.eng
@@ -78,6 +79,8 @@ def jobs(tier):
     for g in gs:
         for via in ('api', 'esc_c'):
             js.append(Job('reset/%s/%dx%d' % (via, g[0], g[1]), path_reset, geom=g, via=via, prop=PROP))
+    for g in ([(258, 2)] if tier == 'quick' else [(133, 1), (258, 2), (2, 258), (300, 3)]):
+        js.append(Job('reset/api/remote/%dx%d' % g, path_reset, geom=g, via='api', remote=True, prop=PROP))
     js.append(Job('reset/api/3x2+savepoint', path_reset, geom=(3, 2), via='api', sp=1, prop=PROP))
     js.append(Job('reset/api/parametric', path_reset, geom=None, via='api', prop=PROP))
     ng = [(2, 1)] if tier == 'quick' else [(2, 1), (2, 2)]
@@ -93,7 +96,7 @@ META = {
     'functions': ['reset', 'Screen::new', 'ParserListener::escape_dispatch', 'every operation of the sweep (non-interference)'],
     'bounds': 'reset from symbolic states on geometries {1x1,3x2,9x1,17x2} (thorough + {2x3,25x1}) with symbolic charset '
               'state, titles, modes, margins, tab stops, saved columns, saved cursors, and on a symbolic geometry '
-              '1..=140 x 1..=6; compared field for field with Screen::new executed in the same engine; non-interference '
+              '1..=140 x 1..=6, and from sparsely written remote screens (258x2; thorough + 133x1, 2x258, 300x3); compared field for field with Screen::new executed in the same engine; non-interference '
               'of the saved-cursor stack for every sweep operation on 2x1 (thorough + 2x2)',
     'outside': 'continuations containing DECRC (excluded by the statement)',
 }
